@@ -16,6 +16,14 @@ class Unsupported(Exception):
     """The code under analysis left the supported subset (-> undecided, exit 2, never a violation)."""
 
 
+class FrameViolation(Exception):
+    """The code mutates an object owned by an (immutable) input or a module-level object."""
+
+    def __init__(self, what, stack):
+        super().__init__(f'mutation ({what}) of state owned by an input / module in {stack[-1] if stack else "?"}')
+        self.what, self.stack = what, list(stack)
+
+
 class Atomic:
     """Mixin: deepcopy returns the object itself (immutable / shared program entities)."""
 
